@@ -89,7 +89,16 @@ def multiprocessing_run(
     study_restart = False
     dir_to_use = directory_name
     if os.path.isdir(directory_name):
+        previous_study_found = False
         if os.path.isfile(mp_log_path):
+            # A log whose input block is missing or incomplete was cut short while the header was being written
+            #  (no case can have started yet): there is nothing to restart from, so start the study afresh.
+            with open(mp_log_path, 'r') as mp_file:
+                log_lines = mp_file.readlines()
+            if '------Inputs Below------\n' in log_lines:
+                previous_study_found = \
+                    '------------\n' in log_lines[log_lines.index('------Inputs Below------\n'):]
+        if previous_study_found:
             # It looks like there is already a multiprocessor study that was started in this directory.
             # See if user wants to force a restart. Otherwise this call will be a restart run.
             if verbose:
